@@ -26,6 +26,19 @@ type c01PodCtl struct {
 	reserved     bool     // a reserve took effect
 	track        bool     // record where the pod was after each operation (concurrent unit)
 	seen         []c01PodAt
+	// late quotas (sequential unit only): names a new pod's quota label may carry although no such
+	// group exists (yet); exists tells whether a group of that name exists now; lateEvent is set when
+	// an event was routed to the pod's own, late-created quota while the default group held the pod
+	lateNames []string
+	exists    func(name string) bool
+	lateEvent *c01LateEvent
+}
+
+// c01LateEvent: see lateResolve.
+type c01LateEvent struct {
+	p       *c01Pod
+	kind    string
+	deleted bool
 }
 
 func c01PickDest(r *kit.Rand, dests []string, not string) string {
@@ -42,7 +55,7 @@ func c01PickDest(r *kit.Rand, dests []string, not string) string {
 }
 
 func (p *c01Pod) drop() {
-	p.inMgr, p.group, p.asg = false, "", false
+	p.inMgr, p.group, p.reserved, p.parked = false, "", false, false
 }
 
 // podOp issues one pod-related call for pod p. It only touches p and the manager, so that the
@@ -83,6 +96,16 @@ func (e *c01Env) podOp1(r *kit.Rand, p *c01Pod, ctl *c01PodCtl) string {
 			p.node = fmt.Sprintf("n%d", r.Intn(4))
 			p.term = r.Pct(15)
 		}
+		if len(ctl.lateNames) > 0 && r.Pct(9) {
+			// the pod names a quota the scheduler does not know (yet): Plugin.OnPodAdd routes it to the
+			// default group (getPodAssociateQuotaNameAndTreeID)
+			p.label = kit.Pick(r, ctl.lateNames)
+			p.build(r, p.label, false)
+			gqm.OnPodAdd(extension.DefaultQuotaName, p.cur)
+			c.Op("OnPodAdd(%s, %s) [its quota %s is unknown: parked in the default group]", extension.DefaultQuotaName, p, p.label)
+			p.inMgr, p.group, p.reserved, p.parked = true, extension.DefaultQuotaName, false, true
+			return "pod-add-parked"
+		}
 		g := c01PickDest(r, ctl.dests, "")
 		if g == "" || r.Pct(4) {
 			g = c01Ghost
@@ -98,7 +121,7 @@ func (e *c01Env) podOp1(r *kit.Rand, p *c01Pod, ctl *c01PodCtl) string {
 			c.Op("OnPodAdd(%s, %s)", g, p)
 		}
 		if g != c01Ghost {
-			p.inMgr, p.group, p.asg = true, g, p.node != "" && !p.term
+			p.inMgr, p.group, p.reserved = true, g, false
 		}
 		return "pod-add"
 	}
@@ -122,7 +145,7 @@ func (e *c01Env) podOp1(r *kit.Rand, p *c01Pod, ctl *c01PodCtl) string {
 			gqm.OnPodUpdate(g, oldG, p.cur, old)
 			c.Op("OnPodUpdate(%s, %s, %s) [pod not held]", g, oldG, p)
 			if g != c01Ghost {
-				p.inMgr, p.group, p.asg = true, g, p.node != "" && !p.term
+				p.inMgr, p.group, p.reserved = true, g, false
 			}
 			return "pod-update-not-held"
 		case 1:
@@ -144,14 +167,20 @@ func (e *c01Env) podOp1(r *kit.Rand, p *c01Pod, ctl *c01PodCtl) string {
 			return "pod-reserve-not-held"
 		}
 	}
+	if p.parked && ctl.exists != nil && ctl.exists(p.label) {
+		return e.lateOp(r, p, ctl)
+	}
 	kind := r.Weighted(32, 9, 10, 16, 11, 0, 4)
-	if p.group == extension.DefaultQuotaName && r.Pct(30) {
+	if p.group == extension.DefaultQuotaName && !p.parked && r.Pct(30) {
 		// MigratePod as the plugin's periodic migrateDefaultQuotaGroupsPod issues it: a pod parked in the
 		// default group (its own quota was unknown when it arrived) moves to its quota once that exists
 		kind = 5
 	}
 	if (kind == 3 || kind == 4) && p.node != "" {
 		kind = 0 // a bound pod is not in a scheduling cycle
+	}
+	if kind == 3 && p.term {
+		kind = 0 // a terminated pod is not scheduled (an Unreserve can still arrive: the cycle was in flight)
 	}
 	switch kind {
 	case 0: // update within the group
@@ -168,14 +197,17 @@ func (e *c01Env) podOp1(r *kit.Rand, p *c01Pod, ctl *c01PodCtl) string {
 			p.node = fmt.Sprintf("n%d", r.Intn(4))
 			what += " bind"
 		}
-		if p.node != "" && !p.term && r.Pct(12) {
-			p.term = true
+		if !p.term && ((p.node != "" && r.Pct(12)) || (p.node == "" && r.Pct(3))) {
+			p.term = true // Succeeded/Failed; an unbound pod can fail too (e.g. rejected by the kubelet-less paths, preempted while pending)
 			what += " terminate"
 		}
-		p.build(r, p.group, r.Pct(8))
+		lbl := p.group
+		if p.parked {
+			lbl = p.label // still unknown: both names route to the default group
+		}
+		p.build(r, lbl, r.Pct(8))
 		gqm.OnPodUpdate(p.group, p.group, p.cur, old)
 		c.Op("OnPodUpdate(%s, %s, %s) [%s]", p.group, p.group, p, what)
-		p.asg = p.asg || (p.node != "" && !p.term)
 		if what == "" {
 			return "pod-update-nochange"
 		}
@@ -189,13 +221,14 @@ func (e *c01Env) podOp1(r *kit.Rand, p *c01Pod, ctl *c01PodCtl) string {
 		if r.Pct(25) {
 			p.req = c01GenReq(r)
 		}
+		p.parked = false
 		p.build(r, g, false)
 		gqm.OnPodUpdate(g, oldG, p.cur, old)
 		c.Op("OnPodUpdate(%s, %s, %s) [quota label changed]", g, oldG, p)
 		if g == c01Ghost {
 			p.drop()
 		} else {
-			p.group, p.asg = g, p.node != "" && !p.term
+			p.group, p.reserved = g, false
 		}
 		return "pod-update-cross"
 	case 2:
@@ -210,16 +243,16 @@ func (e *c01Env) podOp1(r *kit.Rand, p *c01Pod, ctl *c01PodCtl) string {
 		return "pod-delete"
 	case 3:
 		gqm.ReservePod(p.group, p.cur)
-		c.Op("ReservePod(%s, p%d) [assigned before=%v]", p.group, p.slot, p.asg)
-		if !p.asg {
+		c.Op("ReservePod(%s, p%d) [assigned before=%v]", p.group, p.slot, p.asg())
+		if !p.asg() {
 			ctl.reserved = true
 		}
-		p.asg = true
+		p.reserved = true
 		return "pod-reserve"
 	case 4:
 		gqm.UnreservePod(p.group, p.cur)
-		c.Op("UnreservePod(%s, p%d) [assigned before=%v]", p.group, p.slot, p.asg)
-		p.asg = false
+		c.Op("UnreservePod(%s, p%d) [assigned before=%v]", p.group, p.slot, p.asg())
+		p.reserved = false
 		return "pod-unreserve"
 	case 5:
 		var userLeaves []string
@@ -259,6 +292,132 @@ func (e *c01Env) podOp1(r *kit.Rand, p *c01Pod, ctl *c01PodCtl) string {
 	}
 }
 
+// lateOp: the pod is held by the default group because its quota was unknown when it arrived, and
+// a group of that name exists now. These are the calls the plugin issues from here on
+// (pod_handler.go, plugin.go Reserve/Unreserve, plugin_helper.go): every event is routed by
+// getPodAssociateQuotaNameAndTreeID, which looks the pod's label up in the quotas known AT EVENT TIME,
+// for the old and the new object of an update alike - so the event names the pod's own quota although
+// the default group holds the pod; the periodic migrateDefaultQuotaGroupsPod issues
+// MigratePod(cached object, default, own quota).
+func (e *c01Env) lateOp(r *kit.Rand, p *c01Pod, ctl *c01PodCtl) string {
+	c, gqm, q := e.c, e.gqm, p.label
+	kind := r.Weighted(38, 12, 14, 6, 30)
+	if (kind == 2 || kind == 3) && (p.node != "" || (kind == 2 && p.term)) {
+		kind = 0
+	}
+	c.Count("late_quota_window_events", 1)
+	switch kind {
+	case 0:
+		old, what := p.cur, ""
+		if r.Pct(50) {
+			p.req = c01GenReq(r)
+			what += " req"
+		}
+		if p.node == "" && r.Pct(30) {
+			p.node = fmt.Sprintf("n%d", r.Intn(4))
+			what += " bind"
+		}
+		if !p.term && p.node != "" && r.Pct(10) {
+			p.term = true
+			what += " terminate"
+		}
+		p.build(r, q, false)
+		gqm.OnPodUpdate(q, q, p.cur, old)
+		c.Op("OnPodUpdate(%s, %s, %s) [%s; own quota created late, pod held by the default group]", q, q, p, what)
+		ctl.lateEvent = &c01LateEvent{p: p, kind: "update"}
+		return "pod-late-update"
+	case 1:
+		gqm.OnPodDelete(q, p.cur)
+		c.Op("OnPodDelete(%s, p%d) [own quota created late, pod held by the default group]", q, p.slot)
+		ctl.lateEvent = &c01LateEvent{p: p, kind: "delete", deleted: true}
+		return "pod-late-delete"
+	case 2:
+		gqm.ReservePod(q, p.cur)
+		c.Op("ReservePod(%s, p%d) [own quota created late, pod held by the default group]", q, p.slot)
+		p.reserved = true
+		ctl.lateEvent = &c01LateEvent{p: p, kind: "reserve"}
+		return "pod-late-reserve"
+	case 3:
+		gqm.UnreservePod(q, p.cur)
+		c.Op("UnreservePod(%s, p%d) [own quota created late, pod held by the default group]", q, p.slot)
+		p.reserved = false
+		ctl.lateEvent = &c01LateEvent{p: p, kind: "unreserve"}
+		return "pod-late-unreserve"
+	default:
+		var cached *v1.Pod
+		if qi := gqm.GetQuotaInfoByName(extension.DefaultQuotaName); qi != nil {
+			cached = qi.GetPodCache()[p.key()]
+		}
+		if cached == nil {
+			c.Count("migrate_skipped_pod_not_cached", 1)
+			return "pod-migrate-skipped"
+		}
+		gqm.MigratePod(cached, extension.DefaultQuotaName, q)
+		c.Op("MigratePod(cached p%d rv=%s, %s, %s) [periodic migrate to the late-created quota]", p.slot, cached.ResourceVersion, extension.DefaultQuotaName, q)
+		p.group, p.parked = q, false
+		c.Count("late_quota_settled_by_migrate", 1)
+		return "pod-late-migrate"
+	}
+}
+
+const c01SigLate = "C01/late-quota/event-routed-to-own-quota-while-default-holds-pod"
+
+// lateResolve decides the event of lateOp. The statement fixes that the pod is counted exactly once
+// (and not at all after its deletion) but not in which of the two groups it sits until the
+// periodic migrate has run, so the placement is read from the manager: held by exactly one of
+// {default group, own quota} -> the model adopts that group and the usual oracle follows; held by
+// both, by none, still held after its deletion, or a reservation that did not take effect ->
+// violation with the narrow signature (one root cause: the event was routed by the label, not by
+// where the pod is held). A reservation may or may not survive the move (MigratePod carries it,
+// a label change does not): the observed flag is adopted.
+func (e *c01Env) lateResolve(ev *c01LateEvent) {
+	p, c := ev.p, e.c
+	q := p.label
+	held := func(g string) (bool, bool) {
+		qi := e.gqm.GetQuotaInfoByName(g)
+		if qi == nil {
+			return false, false
+		}
+		if _, ok := qi.GetPodCache()[p.key()]; !ok {
+			return false, false
+		}
+		return true, qi.CheckPodIsAssigned(p.cur)
+	}
+	inDef, asgDef := held(extension.DefaultQuotaName)
+	inQ, asgQ := held(q)
+	where := fmt.Sprintf("pod p%d (quota label %s, parked in %s because %s did not exist when it arrived; %s exists now) after the %s event routed to %s", p.slot, q, extension.DefaultQuotaName, q, q, ev.kind, q)
+	if ev.deleted {
+		p.cur = nil
+		p.drop()
+		if inDef || inQ {
+			e.knownDefect(c01SigLate, fmt.Sprintf("%s: the deleted pod is still held (default group: %v, %s: %v) and keeps counting", where, inDef, q, inQ))
+		}
+		return
+	}
+	switch {
+	case inDef && inQ:
+		p.group, p.parked = q, false
+		e.knownDefect(c01SigLate, fmt.Sprintf("%s: the pod is held, and counted, by the default group AND by %s", where, q))
+		return
+	case !inDef && !inQ:
+		c.Fail("C01/late-quota/pod-lost", "%s: the pod is held by neither group", where)
+	case inQ:
+		p.group, p.parked = q, false
+		c.Count("late_quota_settled_by_event", 1)
+	}
+	obs := asgDef
+	if inQ {
+		obs = asgQ
+	}
+	if ev.kind == "reserve" && !obs {
+		e.knownDefect(c01SigLate, fmt.Sprintf("%s: the reservation did not take effect (the pod does not count as used)", where))
+		return
+	}
+	if p.reserved && p.node == "" && !p.term {
+		p.reserved = obs
+	}
+}
+
 // ---------------------------------------------------------------------------------------------
 // quota operations
 
@@ -272,6 +431,7 @@ type c01QuotaRules struct {
 	nonZero         func(name string) bool // evidence: the group's subtree totals are non-zero
 	reuseNames      bool
 	maxGroups       int
+	parkedLabels    func() []string // labels of parked pods whose quota does not exist (sequential unit), else nil
 }
 
 func (e *c01Env) detachFacts(rules *c01QuotaRules, name string) *c01Detach {
@@ -454,7 +614,23 @@ func (e *c01Env) quotaOp(r *kit.Rand, rules *c01QuotaRules) (string, *c01Detach)
 			return "quota-noop", nil
 		}
 		ng := &c01Group{lent: r.Pct(60), rootLabel: r.Bool(), isParent: r.Pct(30)}
-		if rules.reuseNames && len(e.deleted) > 0 && r.Pct(60) {
+		var wanted []string
+		if rules.parkedLabels != nil {
+			wanted = rules.parkedLabels()
+		}
+		if len(wanted) > 0 && r.Pct(75) {
+			// the quota some parked pod is waiting for (a leaf: pods are not attached to parent groups)
+			ng.name, ng.isParent = kit.Pick(r, wanted), false
+			if ng.name == fmt.Sprintf("q%d", e.nextName) {
+				e.freshName()
+			}
+			for i, d := range e.deleted {
+				if d == ng.name {
+					e.deleted = append(e.deleted[:i], e.deleted[i+1:]...)
+					break
+				}
+			}
+		} else if rules.reuseNames && len(e.deleted) > 0 && r.Pct(60) {
 			i := r.Intn(len(e.deleted))
 			ng.name = e.deleted[i]
 			e.deleted = append(e.deleted[:i], e.deleted[i+1:]...)
@@ -466,6 +642,11 @@ func (e *c01Env) quotaOp(r *kit.Rand, rules *c01QuotaRules) (string, *c01Detach)
 		for _, n := range names {
 			if m.groups[n].isParent && m.depth(n)+1 <= 3 {
 				cands = append(cands, n, n)
+			}
+		}
+		for _, w := range wanted {
+			if w == ng.name {
+				ng.isParent = false // a parked pod names it: pods are not attached to parent groups
 			}
 		}
 		ng.parent = kit.Pick(r, cands)
